@@ -315,6 +315,28 @@ def run(eng, R):
              "XYContainer.%s normalises `%s` to `%s` but still uses the raw value (%s): a string axis ends up as an index / dictionary key" % (
                  name, raw, cooked, norm_stmt(common.enclosing_stmt(f.node, uses[0]))[:80] if uses else ""))
 
+    # ---- H-proj: formulas that combine the declared sources into the matrices the cost functions receive
+    from .formulas import check, check_lambda, get_func as _gf
+
+    R.rule("H-proj", "total = data + model uncertainties (matrices added, pointwise errors in quadrature); x uncertainties are projected onto y through the model slope: "
+                     "V = V_y + V_x o outer(f', f') (signed slopes), sigma = sqrt(sigma_y^2 + (sigma_x f')^2), slope taken at the current parameters", 6)
+    D = "self._param_model.eval_model_function_derivative_by_x(x=x_model, dx=0.01 * sqrt(diag(x_cov_mat)), model_parameters=parameter_values)"
+    KP = ["x_cov_mat", "y_cov_mat", "x_model", "parameter_values", "x_error", "y_error", "()abs", "()outer", "()diag", "self._param_model.eval_model_function_derivative_by_x",
+          "()self._param_model.eval_model_function_derivative_by_x", "self._param_model"]
+    check(eng, R, "H-proj", "XYFit", "_project_cov_mat", "return", "y_cov_mat + x_cov_mat * outer(%s, %s)" % (D, D), known=KP,
+          what="projected covariance = y covariance + x covariance o outer(slope, slope) with signed slopes at the current parameters")
+    D1 = "self._param_model.eval_model_function_derivative_by_x(x=x_model, dx=0.01 * x_error, model_parameters=parameter_values)"
+    check(eng, R, "H-proj", "XYFit", "_project_error", "return", "sqrt(square(y_error) + square(x_error * %s))" % D1, known=KP,
+          what="projected pointwise uncertainty = sqrt(y error^2 + (x error x slope)^2)")
+    xin = _gf(p, "XYFit", "_init_nexus")
+    xsrc = common.src_of(xin.node)
+    R.ob("H-proj", "XYFit._init_nexus:total_cov_mat", "func=self._project_cov_mat, func_name='total_cov_mat', par_names=['x_total_cov_mat', 'y_total_cov_mat', 'x_model', 'parameter_values']" in xsrc, eng.where(xin),
+         "the projected covariance node must receive the total x and y covariance matrices, the x values and the current parameters, in this order")
+    R.ob("H-proj", "XYFit._init_nexus:total_error", "func=self._project_error, func_name='total_error', par_names=['x_total_error', 'y_total_error', 'x_model', 'parameter_values']" in xsrc, eng.where(xin),
+         "the projected error node must receive the total x and y errors, the x values and the current parameters, in this order")
+    check_lambda(eng, R, "H-proj", "FitBase", "_init_nexus", "_error", "sqrt(ARG0 ** 2 + ARG1 ** 2)", "total pointwise uncertainty = model and data uncertainties in quadrature")
+    check_lambda(eng, R, "H-proj", "FitBase", "_init_nexus", "_mat_name", "ARG0 + ARG1", "total covariance = model covariance + data covariance")
+
     # ---- Dsw switch from implicit no-errors cost, exact diagonality test
     oec = p.method(FB, "_on_error_change")
     g = eng.cfg(oec)
